@@ -121,8 +121,9 @@ class _Unbound(Exception):
 class V:
     """a typed Gallina term; `parts` = the components when they are known; `lit` = Python literal value"""
 
-    def __init__(self, code, sort, parts=None, lit=None, arr1=False):
+    def __init__(self, code, sort, parts=None, lit=None, arr1=False, vec=False):
         self.code, self.sort, self.parts, self.lit, self.arr1 = code, sort, parts, lit, arr1
+        self.vec = vec          # a numpy row vector (elementwise arithmetic / comparisons with broadcasting)
 
 
 # ------------------------------------------------------------------ sorts
@@ -147,6 +148,8 @@ def sort_coq(s, classes):
         return sort_coq(obj_tuple(s, classes), classes)
     if s[0] == 'res':
         return '(res ' + sort_coq(s[1], classes) + ')'
+    if s[0] == 'fun':
+        return '(' + ' -> '.join(['Q'] * (s[1] + 1)) + ')'
     raise ValueError(s)
 
 
@@ -179,11 +182,18 @@ class Fn:
 
 
 class Translator:
-    def __init__(self, file, classes, registry, elementwise=False):
+    def __init__(self, file, classes, registry, elementwise=False, funcs=None):
         self.file = file
+        # uninterpreted real functions: {'np.sqrt': ('sqrt_', 1)} -> an extra argument (sqrt_ : Q -> Q); every call
+        # np.sqrt(e) becomes (sqrt_ e).  Nothing is assumed about them: the tie theorems state their hypotheses.
+        self.funcs = dict(funcs or {})
+        self.func_vals = {}
         self.classes = classes          # {'Class': {'fields': [(name, sort)...]}}
         self.registry = registry        # {(class or None, pyname): Fn}
         self.elementwise = elementwise
+        self.abstract_vals, self.block_mode, self.cells = {}, False, {}
+        self.write_arr, self.write_lens, self.write_idx, self.write_val = None, [], [], None
+        self.func_vals = {}
 
     # -------- errors
     def bad(self, node, why=''):
@@ -286,6 +296,10 @@ class Translator:
 
     # -------- expressions
     def E(self, n, env):
+        if self.abstract_vals and isinstance(n, (ast.Call, ast.Subscript, ast.Attribute)):
+            v = self.abstract_vals.get(ast.unparse(n))
+            if v is not None:
+                return v
         m = getattr(self, 'e_' + type(n).__name__, None)
         if m is None:
             raise self.bad(n)
@@ -335,6 +349,13 @@ class Translator:
         return V('[' + '; '.join(p.code for p in parts) + ']', LIST(s), parts)
 
     def e_Attribute(self, n, env):
+        if isinstance(n.value, ast.Name) and self.write_arr is not None and n.value.id == self.write_arr:
+            if n.attr == 'shape':
+                return V('(' + ', '.join(v.code for v in self.write_lens) + ')', TUP(*[Z] * len(self.write_lens)),
+                         list(self.write_lens))
+            if n.attr == 'ndim':
+                return V(self.zlit(len(self.write_lens)), Z, lit=len(self.write_lens))
+            raise self.bad(n, 'attribute of the written array')
         if isinstance(n.value, ast.Name) and n.value.id in env:
             o = env[n.value.id]
             if isinstance(o.sort, tuple) and o.sort[0] == 'obj':
@@ -358,6 +379,19 @@ class Translator:
     def e_Subscript(self, n, env):
         v = self.E(n.value, env)
         k = n.slice
+        if isinstance(v.sort, tuple) and v.sort[0] == 'obj' and self.classes[v.sort[1]].get('rec'):
+            # row['name'] / row[colname]: a record with one declared field per key; a key is a string literal
+            # or a NAME used as key (declared under that name; it must not be a translated local)
+            if isinstance(k, ast.Constant) and isinstance(k.value, str):
+                key = k.value
+            elif isinstance(k, ast.Name) and k.id not in env and k.id not in self.locals:
+                key = k.id
+            else:
+                raise self.bad(n, 'record key must be a string literal or a declared key name')
+            names = [f for f, _ in self.classes[v.sort[1]]['fields']]
+            if key not in names or v.parts is None:
+                raise self.bad(n, f'{key!r} is not a declared key')
+            return v.parts[names.index(key)]
         if isinstance(k, ast.UnaryOp) and isinstance(k.op, ast.USub) and isinstance(k.operand, ast.Constant):
             k = ast.Constant(value=-k.operand.value)
         if not (isinstance(k, ast.Constant) and isinstance(k.value, int) and not isinstance(k.value, bool)):
@@ -378,8 +412,27 @@ class Translator:
             raise self.bad(node, 'division by a non-literal inside a short-circuit / conditional expression')
         self.guards.append((d, sort))
 
-    def e_BinOp(self, n, env):
-        a, b = self.E(n.left, env), self.E(n.right, env)
+    def bcast(self, f, vals, node):
+        """apply f componentwise to numpy row vectors (scalars broadcast)"""
+        ks = {len(v.parts) for v in vals if v.parts is not None and (v.vec or v.sort[0] == 'tuple')}
+        if len(ks) != 1 or any(v.arr1 for v in vals):
+            raise self.bad(node, 'row vectors of different lengths')
+        k = ks.pop()
+        cols = []
+        for i in range(k):
+            cols.append(f(*[(v.parts[i] if (v.parts is not None and isinstance(v.sort, tuple)) else v) for v in vals]))
+        return V('(' + ', '.join(c.code for c in cols) + ')', TUP(*[c.sort for c in cols]), cols, vec=True)
+
+    def binop(self, op, a, b, n):
+        node = ast.copy_location(ast.BinOp(left=ast.Constant(value=0), op=op, right=ast.Constant(value=0)), n)
+        return self.e_BinOp(node, None, pre=(a, b))
+
+    def e_BinOp(self, n, env, pre=None):
+        a, b = pre if pre is not None else (self.E(n.left, env), self.E(n.right, env))
+        if a.vec or b.vec:
+            if not self.elementwise:
+                raise self.bad(n, 'vector arithmetic outside an elementwise target')
+            return self.bcast(lambda x, y: self.binop(n.op, x, y, n), [a, b], n)
         arr1 = a.arr1 or b.arr1
         op = type(n.op).__name__
         if op in ('BitOr', 'BitAnd'):
@@ -460,6 +513,8 @@ class Translator:
         return V('(' + f' {sym} '.join(v.code for v in vals) + ')', B, arr1=any(v.arr1 for v in vals))
 
     def cmp1(self, op, a, b, node):
+        if (a.vec or b.vec) and op in ('Lt', 'LtE', 'Gt', 'GtE', 'Eq', 'NotEq'):
+            return self.bcast(lambda x, y: self.cmp1(op, x, y, node), [a, b], node)
         arr1 = a.arr1 or b.arr1
         if op in ('Is', 'IsNot'):
             if b.sort != NONE:
@@ -549,18 +604,31 @@ class Translator:
                 raise self.bad(n, f'{name}: unexpected arguments')
             return [self.E(a, env) for a in A]
 
+        if name in self.funcs:
+            pname, arity = self.funcs[name]
+            vals = args(arity)
+            if not all(is_num(v.sort) and not v.vec for v in vals):
+                raise self.bad(n, f'{name}: scalar numeric arguments expected')
+            if name not in self.func_vals:
+                raise self.bad(n, f'{name} was not declared before translation')
+            return V('(' + ' '.join([self.func_vals[name]] + [self.coerce(v, Q, n) for v in vals]) + ')', Q,
+                     arr1=any(v.arr1 for v in vals))
         if name in ('math.floor', 'math.ceil', 'np.floor', 'np.ceil'):
             a, = args(1)
+            f = 'Qfloor' if name.endswith('floor') else 'Qceiling'
+            if a.vec and name.startswith('np.'):
+                return self.bcast(lambda x: x if x.sort == Z else V(f'({f} {x.code})', Z), [a], n)
             if a.sort == Z:
                 return a
             if a.sort != Q:
                 raise self.bad(n)
-            f = 'Qfloor' if name.endswith('floor') else 'Qceiling'
             return V(f'({f} {a.code})', Z, arr1=a.arr1)
         if name == 'int':
             a, = args(1)
+            if a.sort == Q and not a.arr1:        # int(float) truncates toward zero
+                return V(f'(if Qle_bool (0 # 1)%Q {a.code} then Qfloor {a.code} else Qceiling {a.code})', Z)
             if a.sort != Z:
-                raise self.bad(n, 'int() of a non-integer-sorted term')
+                raise self.bad(n, 'int() of a non-numeric term')
             return a
         if name == 'float':
             a, = args(1)
@@ -605,10 +673,13 @@ class Translator:
                 ok = set(tn) & {'int', 'np.integer', 'numbers.Integral'}
                 if ok or set(tn) <= {'float', 'str', 'bool', 'np.floating', 'tuple', 'list'}:
                     return V('true' if ok else 'false', B, lit=bool(ok))
-            if isinstance(a.sort, tuple) and a.sort[0] == 'obj' and len(tn) == 1 and tn[0] in self.classes:
-                r = tn[0] == a.sort[1]
-                if r:
+            if isinstance(a.sort, tuple) and a.sort[0] == 'obj':
+                mine = set(self.classes[a.sort[1]].get('pytypes', [a.sort[1]]))
+                known = {t for c in self.classes.values() for t in c.get('pytypes', [])} | set(self.classes)
+                if set(tn) & mine:
                     return V('true', B, lit=True)
+                if set(tn) <= known:        # another declared class: the declared sort says it is not that
+                    return V('false', B, lit=False)
             raise self.bad(n, f'isinstance not decidable from the declared sort {a.sort}')
         if name == 'np.clip':
             v, lo, hi = args(3)
@@ -620,10 +691,27 @@ class Translator:
             s = self.join(a.sort, b.sort, n)
             return V(f'(if {c.code} then {self.coerce(a, s, n)} else {self.coerce(b, s, n)})', s,
                      arr1=c.arr1 or a.arr1 or b.arr1)
+        if name == 'np.array' and self.elementwise and len(A) == 1 and set(kw) <= {'dtype'} \
+                and not isinstance(A[0], (ast.List, ast.Tuple)):
+            # np.array(<elementwise expression>, dtype=...): the element itself, converted to the dtype
+            a = self.E(A[0], env)
+            dt = self.dotted(kw['dtype']) if 'dtype' in kw else None
+            if a.sort == B and dt == 'int':
+                return V(f'(if {a.code} then 1%Z else 0%Z)', Z, arr1=a.arr1)
+            if (a.sort == B and dt in (None, 'bool')) or (a.sort == Z and dt in (None, 'int')) or (a.sort == Q and dt in (None, 'float')):
+                return a
+            if a.sort == Z and dt == 'float':
+                return V(self.coerce(a, Q, n), Q, arr1=a.arr1)
+            raise self.bad(n, 'np.array dtype conversion')
         if name == 'np.array':
             if len(A) != 1 or kw or not isinstance(A[0], (ast.List, ast.Tuple)):
                 raise self.bad(n, 'np.array of a non-literal')
-            return self.mk_list([self.E(e, env) for e in A[0].elts], n)
+
+            def lit(e):         # nested tuple / list literals are the rows of the array
+                if isinstance(e, (ast.List, ast.Tuple)):
+                    return self.mk_list([lit(x) for x in e.elts], n)
+                return self.E(e, env)
+            return lit(A[0])
         if name in ('np.asarray', 'np.asanyarray', 'np.atleast_1d'):
             a, = args(1, allow_kw=('dtype',))
             if not (is_num(a.sort) or a.sort == B) or not self.elementwise:
@@ -633,6 +721,41 @@ class Translator:
                     raise self.bad(n, 'dtype')
                 a = V(self.coerce(a, Q, n), Q, arr1=a.arr1)
             return V(a.code, a.sort, a.parts, a.lit, arr1=(a.arr1 or name == 'np.atleast_1d'))
+        if name == 'np.prod':
+            a, = args(1)
+            if a.parts is None or not all(is_num(p.sort) for p in a.parts) or a.arr1:
+                raise self.bad(n, 'np.prod of a value whose components are not known')
+            s_ = Z if all(p.sort == Z for p in a.parts) else Q
+            return V('(' + ' * '.join(self.coerce(p, s_, n) for p in a.parts) + f')%{s_}', s_)
+        if name == 'np.ones':
+            if len(A) != 1 or set(kw) - {'dtype'}:
+                raise self.bad(n)
+            shp = self.E(A[0], env)
+            dims = [p.lit for p in shp.parts] if shp.parts is not None else [shp.lit]
+            if not dims or not all(isinstance(d, int) and not isinstance(d, bool) and 1 <= d <= 9 for d in dims):
+                raise self.bad(n, 'np.ones needs a small literal shape')
+            isint = 'dtype' in kw and self.dotted(kw['dtype']) in ('int', 'np.int64', 'np.intp')
+            if 'dtype' in kw and not isint and self.dotted(kw['dtype']) not in ('float', 'np.float64'):
+                raise self.bad(n, 'dtype')
+
+            def ones(ds):
+                if not ds:
+                    return V('1%Z', Z, lit=1) if isint else V('(1 # 1)%Q', Q)
+                return self.mk_list([ones(ds[1:]) for _ in range(ds[0])], n)
+            return ones(dims)
+        if name in ('np.transpose', 'np.column_stack') and self.elementwise:
+            # one ROW of the (N, k) array built from k per-source scalars
+            a, = args(1)
+            if a.parts is None or not all(is_num(p.sort) for p in a.parts):
+                raise self.bad(n, f'{name} of per-source scalars only')
+            return V(a.code, a.sort, a.parts, vec=True)
+        if name == 'np.any' and self.elementwise:
+            a, = args(1, allow_kw=('axis',))
+            if not (a.vec and a.parts is not None and all(p.sort == B for p in a.parts)):
+                raise self.bad(n, 'np.any only over the components of a row vector')
+            if 'axis' in kw and not (isinstance(kw['axis'], ast.Constant) and kw['axis'].value in (1, -1)):
+                raise self.bad(n, 'axis')
+            return V('(' + ' || '.join(p.code for p in a.parts) + ')', B)
         if name == 'np.isscalar':
             a, = args(1)
             if not (is_num(a.sort) or a.sort in (B, S)):
@@ -732,7 +855,9 @@ class Translator:
         self.guards = []
         try:
             v = thunk()
-        except _Unbound:
+        except _Unbound as u:
+            if self.block_mode:     # the name may have been bound before the translated span: never guess
+                raise Untranslatable(self.file, 0, f'name {u}', 'read in the span but not declared and not bound in it')
             return None, ('raise', 'UnboundLocalError')
         guards = self.guards
         self.guards = []
@@ -753,12 +878,12 @@ class Translator:
             if isinstance(fs, tuple) and fs[0] in ('tuple', 'list') and v.parts is not None:
                 parts = [go(p, f'{base}_{i}') for i, p in enumerate(v.parts)]
                 o, c, sep = ('(', ')', ', ') if fs[0] == 'tuple' else ('[', ']', '; ')
-                return V(o + sep.join(p.code for p in parts) + c, v.sort, parts, arr1=v.arr1)
+                return V(o + sep.join(p.code for p in parts) + c, v.sort, parts, arr1=v.arr1, vec=v.vec)
             if isinstance(fs, tuple) and fs[0] == 'tuple':      # opaque tuple (call result): destructure
                 pat, val = self.pattern(fs, base)
                 lets.append(('letpat', pat, v.code))
                 return V(val.code, v.sort, val.parts)
-            if v.lit is not None and not isinstance(v.lit, float):
+            if (v.lit is not None and not isinstance(v.lit, float)) or v.sort == NONE:
                 return v
             name = self.fresh(base)
             lets.append(('let', name, v.code))
@@ -828,6 +953,8 @@ class Translator:
         raise self.bad(s, 'expression statement (possible side effect)')
 
     def s_Return(self, s, env, cont):
+        if self.block_mode:
+            raise self.bad(s, 'return inside a translated span')
         if s.value is None:
             return ('ret', V('None', NONE), s)
         return self.with_value(s.value, env, 'r', lambda v, e: ('ret', v, s))
@@ -857,6 +984,14 @@ class Translator:
                     body = w(body)
                 return body
             return env, wrap
+        if isinstance(target, ast.Subscript) and ast.unparse(target) in self.cells:
+            # a declared accumulator cell such as flags[index]
+            key = ast.unparse(target)
+            v = V(self.coerce(v, self.cells[key], node), self.cells[key])
+            return self.bind(key, v, env, node)
+        if (isinstance(target, ast.Subscript) and isinstance(target.value, ast.Name)
+                and self.write_arr is not None and target.value.id == self.write_arr):
+            return self.slice_write(target, v, env, node)
         if (isinstance(target, ast.Attribute) and isinstance(target.value, ast.Name) and target.value.id == 'self'
                 and self.init_mode):
             names = [f for f, _ in self.classes[self.cls_name]['fields']]
@@ -878,13 +1013,29 @@ class Translator:
         return self.with_value(s.value, env, base, k)
 
     def s_AugAssign(self, s, env, cont):
-        if not isinstance(s.target, ast.Name):
+        if isinstance(s.target, ast.Subscript) and ast.unparse(s.target) in self.cells:
+            left = ast.Name(id=ast.unparse(s.target), ctx=ast.Load())      # the cell is an env entry under its text
+        elif isinstance(s.target, ast.Name):
+            left = ast.Name(id=s.target.id, ctx=ast.Load())
+        else:
             raise self.bad(s)
-        node = ast.copy_location(ast.BinOp(left=ast.Name(id=s.target.id, ctx=ast.Load()), op=s.op, right=s.value), s)
+        node = ast.copy_location(ast.BinOp(left=left, op=s.op, right=s.value), s)
         ast.fix_missing_locations(node)
         return self.s_Assign(ast.copy_location(ast.Assign(targets=[s.target], value=node), s), env, cont)
 
     def s_If(self, s, env, cont):
+        t = s.test
+        if (isinstance(t, ast.Compare) and len(t.ops) == 1 and isinstance(t.ops[0], (ast.Is, ast.IsNot))
+                and isinstance(t.left, ast.Name) and t.left.id in env
+                and isinstance(t.comparators[0], ast.Constant) and t.comparators[0].value is None
+                and isinstance(env[t.left.id].sort, tuple) and env[t.left.id].sort[0] == 'opt'):
+            # `if x is (not) None:` on an option-sorted name: x is the payload in the not-None branch
+            o = env[t.left.id]
+            name = self.fresh(t.left.id + '_some')
+            env_some = dict(env)
+            env_some[t.left.id] = V(name, o.sort[1])
+            some_body, none_body = (s.orelse, s.body) if isinstance(t.ops[0], ast.Is) else (s.body, s.orelse)
+            return ('matchopt', o.code, name, self.block(some_body, env_some, cont), self.block(none_body, env, cont))
         r, wrap = self.own(lambda: self.E(s.test, env))
         if r is None:
             return wrap
@@ -896,6 +1047,23 @@ class Translator:
         a = self.block(s.body, env, cont)
         b = self.block(s.orelse, env, cont)
         return wrap(('if', c.code, a, b))
+
+    def s_With(self, s, env, cont):
+        """`with warnings.catch_warnings():` whose body starts with warnings.simplefilter/filterwarnings('ignore', ...):
+        value-transparent (an 'ignore' filter cannot raise); any other context manager is refused"""
+        for it in s.items:
+            if it.optional_vars is not None or not (isinstance(it.context_expr, ast.Call)
+                                                    and self.dotted(it.context_expr.func) == 'warnings.catch_warnings'
+                                                    and not it.context_expr.args and not it.context_expr.keywords):
+                raise self.bad(s, 'context manager')
+        body = []
+        for b in s.body:
+            if (isinstance(b, ast.Expr) and isinstance(b.value, ast.Call)
+                    and self.dotted(b.value.func) in ('warnings.simplefilter', 'warnings.filterwarnings')
+                    and b.value.args and isinstance(b.value.args[0], ast.Constant) and b.value.args[0].value == 'ignore'):
+                continue
+            body.append(b)
+        return self.block(body, env, cont)
 
     def s_For(self, s, env, cont):
         if s.orelse or not isinstance(s.iter, (ast.Tuple, ast.List)) or not isinstance(s.target, ast.Name):
@@ -928,6 +1096,9 @@ class Translator:
             self.leaves(ir[3], acc)
         elif t in ('let', 'letpat'):
             self.leaves(ir[3], acc)
+        elif t == 'matchopt':
+            self.leaves(ir[3], acc)
+            self.leaves(ir[4], acc)
         elif t == 'bind':
             acc['raises'].update(ir[4])
             self.leaves(ir[3], acc)
@@ -947,6 +1118,9 @@ class Translator:
             return f'{pad}let {ir[1]} := {ir[2]} in\n{self.render(ir[3], rs, raising, ind)}'
         if t == 'letpat':
             return f"{pad}let '{ir[1]} := {ir[2]} in\n{self.render(ir[3], rs, raising, ind)}"
+        if t == 'matchopt':
+            return (f'{pad}match {ir[1]} with\n{pad}| Some {ir[2]} =>\n{self.render(ir[3], rs, raising, ind + 4)}\n'
+                    f'{pad}| None =>\n{self.render(ir[4], rs, raising, ind + 4)}\n{pad}end')
         if t == 'bind':
             return (f'{pad}match {ir[2]} with\n{pad}| Raise e_ => Raise e_\n{pad}| Ok {ir[1]} =>\n'
                     f'{self.render(ir[3], rs, raising, ind + 4)}\n{pad}end')
@@ -954,11 +1128,14 @@ class Translator:
 
     # -------- entry points
     def setup(self, cls_name, init_mode, locals_):
-        self.used, self.params, self.guards, self.divisors = {}, [], [], []
+        self.used, self.params, self.guards, self.divisors, self.func_notes = {}, [], [], [], []
         self.noguard, self.stmt_call = False, False
         self.cls_name, self.init_mode, self.locals = cls_name, init_mode, locals_
+        self.abstract_vals, self.block_mode, self.cells = {}, False, {}
+        self.write_arr, self.write_lens, self.write_idx, self.write_val = None, [], [], None
+        self.func_vals = {}
 
-    def function(self, fdef, src_lines, gen_name, cls_name, sorts):
+    def function(self, fdef, src_lines, gen_name, cls_name, sorts, abstract=None, vec=()):
         """translate one FunctionDef; `sorts` = {python parameter name: sort} or the list of the sorts of the
         parameters after self / cls (then renaming a parameter in the source is harmless)"""
         decos = [self.dotted(d) for d in fdef.decorator_list]
@@ -994,12 +1171,28 @@ class Translator:
                 s = OBJ(cls_name)
             elif i == 0 and kind == 'classmethod':
                 continue
+            elif p in sorts and sorts[p] is None:
+                continue        # declared opaque (a table, an array ...): not an argument; any direct read is refused
             elif p in sorts:
                 s = sorts[p]
             else:
                 raise self.bad(fdef, f'no sort declared for parameter {p}')
             env[p] = self.param_value(p, s)
             pyparams.append((p, s))
+        for text, (pname, asort) in (abstract or {}).items():
+            self.abstract_vals[text] = self.param_value(pname, asort)
+            pyparams.append((text, asort))
+        for name in vec:
+            tgt = None
+            if name.startswith('self.') and 'self' in env:
+                names = [f for f, _ in self.classes[env['self'].sort[1]]['fields']]
+                tgt = env['self'].parts[names.index(name[5:])] if name[5:] in names else None
+            else:
+                tgt = env.get(name) or self.abstract_vals.get(name)
+            if tgt is None:
+                raise self.bad(fdef, f'vec name {name} is not declared')
+            tgt.vec = True
+        self.declare_funcs()
 
         def fall_off(e):
             if init_mode:
@@ -1013,6 +1206,246 @@ class Translator:
         ir = self.block(fdef.body, env, fall_off)
         span = (fdef.lineno, fdef.end_lineno)
         return self.finish(ir, gen_name, pyparams, kind, span, src_lines, fdef)
+
+    def slice_write(self, target, v, env, node):
+        """A[<slices>] = const on the array declared for a 'write' target: hit := hit || (index in the slices)"""
+        if v.lit is None or isinstance(v.lit, (float, str)):
+            raise self.bad(node, 'slice write of a non-constant')
+        if self.write_val is None:
+            self.write_val = v.lit
+        elif bool(self.write_val) != bool(v.lit):
+            raise self.bad(node, 'slice writes of different constants')
+        sub = target.slice
+        elts = list(sub.elts) if isinstance(sub, ast.Tuple) else [sub]
+        if len(elts) > len(self.write_lens):
+            raise self.bad(node, 'more subscripts than declared dimensions')
+        conds = []
+        for k, e in enumerate(elts):
+            if not isinstance(e, ast.Slice) or e.step is not None:
+                raise self.bad(node, 'only basic slices lower:upper are translated')
+
+            def bound(b):
+                if b is None:
+                    return 'None'
+                bv = self.E(b, env)
+                if bv.sort != Z or bv.arr1:
+                    raise self.bad(node, 'slice bound must be an integer')
+                return f'(Some {bv.code})'
+            if e.lower is None and e.upper is None:
+                continue
+            conds.append(f'(py_in_slice {bound(e.lower)} {bound(e.upper)} {self.write_lens[k].code} {self.write_idx[k].code})')
+        cond = '(' + ' && '.join(conds) + ')' if conds else 'true'
+        hit = env['<hit>']
+        new = V(cond if hit.lit is False else f'({hit.code} || {cond})', B)
+        return self.bind('<hit>', new, env, node)
+
+    # ---- spans of statements inside a function
+    @staticmethod
+    def _chains(fdef):
+        """{id(stmt): [(list, index), ...] from the function body down to the list containing stmt}"""
+        out = {}
+
+        def walk(lst, chain):
+            for i, st in enumerate(lst):
+                here = chain + [(lst, i)]
+                out[id(st)] = here
+                for fld in ('body', 'orelse', 'finalbody'):
+                    sub = getattr(st, fld, None)
+                    if isinstance(sub, list) and sub and isinstance(sub[0], ast.stmt):
+                        walk(sub, here)
+                for h in getattr(st, 'handlers', []) or []:
+                    walk(h.body, here)
+        walk(fdef.body, [])
+        return out
+
+    def span_of(self, fdef, chosen):
+        """the statements of the deepest block that contain all `chosen` statements, first to last"""
+        chains = self._chains(fdef)
+        cs = [chains[id(c)] for c in chosen]
+        d = 0
+        while all(len(c) > d + 1 for c in cs) and len({(id(c[d][0]), c[d][1]) for c in cs}) == 1 \
+                and len({id(c[d + 1][0]) for c in cs}) == 1:
+            d += 1
+        if len({id(c[d][0]) for c in cs}) != 1:
+            raise self.bad(fdef, 'selected statements have no common block')
+        lst = cs[0][d][0]
+        idx = [c[d][1] for c in cs]
+        return lst[min(idx):max(idx) + 1]
+
+    @staticmethod
+    def _targets(st):
+        """texts of everything a simple statement assigns (names, tuple elements, subscripts)"""
+        ts = []
+        if isinstance(st, ast.Assign):
+            ts = list(st.targets)
+        elif isinstance(st, (ast.AugAssign, ast.AnnAssign)):
+            ts = [st.target]
+        out = []
+        for t in ts:
+            for e in (t.elts if isinstance(t, (ast.Tuple, ast.List)) else [t]):
+                out.append(ast.unparse(e))
+                if isinstance(e, ast.Subscript):
+                    out.append(ast.unparse(e.value) + '[]')
+        return out
+
+    def declare_funcs(self):
+        """one argument (name : Q -> .. -> Q) per declared uninterpreted function, in declaration order"""
+        for name, (pname, arity) in self.funcs.items():
+            cname = self.fresh(pname)
+            self.params.append((cname, ('fun', arity)))
+            self.func_vals[name] = cname
+            self.func_notes.append(f'{name} -> {cname}')
+
+    @staticmethod
+    def _self_attrs(nodes, abstract):
+        """attributes self.<a> read in `nodes`, not counting reads inside declared abstract expressions"""
+        out = set()
+
+        def walk(n):
+            if abstract and isinstance(n, (ast.Call, ast.Subscript, ast.Attribute)) and ast.unparse(n) in abstract:
+                return
+            if isinstance(n, ast.Attribute) and isinstance(n.value, ast.Name) and n.value.id == 'self':
+                out.add(n.attr)
+            for c in ast.iter_child_nodes(n):
+                walk(c)
+        for n in nodes:
+            walk(n)
+        return out
+
+    def declare(self, sorts, fields, cls_name, free, node, abstract=None, vec=(), used_attrs=None):
+        """parameters for the declared free names (in declaration order), the abstract expressions and self"""
+        env, pyparams = {}, []
+        order = list(sorts)
+        if 'self' in free and 'self' not in order:
+            order = ['self'] + order
+        self.classes = dict(self.classes)
+        for p in order:
+            if p == 'self':
+                if 'self' not in free:
+                    continue
+                if fields is not None:
+                    self.classes['_self'] = {'fields': list(fields)}
+                    sort = OBJ('_self')
+                elif cls_name in self.classes:
+                    names = [f for f, _ in self.classes[cls_name]['fields']]
+                    if used_attrs is not None and used_attrs <= set(names):
+                        # only the declared fields that are read (a stable, minimal signature)
+                        self.classes['_self'] = {'fields': [(f, fs) for f, fs in self.classes[cls_name]['fields']
+                                                            if f in used_attrs]}
+                        sort = OBJ('_self')
+                    else:
+                        sort = OBJ(cls_name)
+                else:
+                    raise self.bad(node, 'self is read but no field sorts are declared')
+            elif p in free or p in self.cells:
+                sort = sorts[p]
+            else:
+                continue
+            env[p] = self.param_value(p, sort)
+            pyparams.append((p, sort))
+        for text, (pname, sort) in (abstract or {}).items():
+            self.abstract_vals[text] = self.param_value(pname, sort)
+            pyparams.append((text, sort))
+        for name in vec:
+            if name.startswith('self.') and 'self' in env:
+                names = [f for f, _ in self.classes[env['self'].sort[1]]['fields']]
+                if name[5:] in names:
+                    env['self'].parts[names.index(name[5:])].vec = True
+            elif name in env:
+                env[name].vec = True
+            elif name in self.abstract_vals:
+                self.abstract_vals[name].vec = True
+            else:
+                raise self.bad(node, f'vec name {name} is not declared')
+        self.declare_funcs()
+        return env, pyparams
+
+    def stmt_block(self, fdef, src_lines, gen_name, cls_name, sorts, fields=None, vars=(), ret=None, occurrences=None,
+                   cells=None, abstract=None, vec=(), write=None):
+        """A SPAN of statements of `fdef` as a function of the names it reads.
+        The span: take every simple statement that assigns one of `vars` (a name, or a declared cell such as
+        'flags[index]', or for write targets a slice of the array), optionally only the `occurrences`-th of them in
+        source order; the span is the run of statements, first to last, of the DEEPEST block that contains them all
+        (for statements inside a loop body: one iteration).  The result is the tuple of the values of `ret` after
+        the span.  Names read must be declared in `sorts` (free names, in that order) or be bound in the span;
+        `return` / `break` / `continue` inside the span are refused.
+        write=(array name, ndim): the span's slice assignments `A[lo:hi, ...] = const`; arguments n0.., i0.. are
+        appended and the result is whether element (i0, ..) is written (Python slice semantics, PyGen.py_in_slice)."""
+        arr = write[0] if write else None
+        keys = set(vars) | ({arr + '[]'} if arr else set())
+        allst = [st for st in ast.walk(fdef) if isinstance(st, (ast.Assign, ast.AugAssign, ast.AnnAssign))
+                 and set(self._targets(st)) & keys]
+        allst.sort(key=lambda st: (st.lineno, st.col_offset))
+        if not allst:
+            raise self.bad(fdef, f'no assignment to {sorted(keys)}')
+        chosen = allst if occurrences is None else [allst[i] for i in occurrences if -len(allst) <= i < len(allst)]
+        if occurrences is not None and len(chosen) != len(occurrences):
+            raise self.bad(fdef, f'only {len(allst)} assignments to {sorted(keys)}')
+        stmts = self.span_of(fdef, chosen)
+        for st in stmts:
+            for t in ast.walk(st):
+                if isinstance(t, (ast.Return, ast.Break, ast.Continue, ast.Yield, ast.YieldFrom, ast.Global, ast.Nonlocal)):
+                    raise self.bad(t, 'control transfer inside a translated span')
+        stored = {t.id for st in stmts for t in ast.walk(st) if isinstance(t, ast.Name) and isinstance(t.ctx, ast.Store)}
+        reads = {t.id for st in stmts for t in ast.walk(st) if isinstance(t, ast.Name) and isinstance(t.ctx, ast.Load)}
+        self.setup(cls_name, False, stored)
+        self.block_mode = True
+        self.cells = dict(cells or {})
+        self.qual = f'{self.qual_of(fdef, cls_name)} :: {", ".join(ret or vars)}'
+        free = set(reads) | set(self.cells)
+        env, pyparams = self.declare(sorts, fields, cls_name, free, stmts[0], abstract, vec, self._self_attrs(stmts, abstract))
+        what = 'values of `' + ', '.join(ret or ()) + '` after the statements'
+        if write:
+            self.write_arr = arr
+            for k in range(write[1]):
+                name = self.fresh(f'n{k}')
+                self.params.append((name, Z))
+                self.write_lens.append(V(name, Z))
+            for k in range(write[1]):
+                name = self.fresh(f'i{k}')
+                self.params.append((name, Z))
+                self.write_idx.append(V(name, Z))
+            pyparams += [(f'len(axis {k})', Z) for k in range(write[1])] + [(f'index {k}', Z) for k in range(write[1])]
+            env['<hit>'] = V('false', B, lit=False)
+            ret = ['<hit>']
+            what = f'whether element (i0, ..) is assigned by the slice writes to `{arr}` in'
+
+        def done(e):
+            vals = []
+            for r in ret:
+                if r not in e:
+                    raise self.bad(stmts[-1], f'{r} is not bound on every path of the span')
+                vals.append(e[r])
+            if len(vals) == 1:
+                return ('ret', vals[0], stmts[-1])
+            return ('ret', V('(' + ', '.join(v.code for v in vals) + ')', TUP(*[v.sort for v in vals]), vals), stmts[-1])
+        ir = self.block(stmts, env, done)
+        span = (stmts[0].lineno, stmts[-1].end_lineno)
+        return self.finish(ir, gen_name, pyparams, 'function', span, src_lines, fdef, what=what)
+
+    def if_test(self, fdef, src_lines, gen_name, cls_name, sorts, fields=None, reads=None, occurrence=None,
+                abstract=None, vec=()):
+        """The TEST of the `if` statement of `fdef` whose test mentions `reads` (a name, or the text of a declared
+        abstract expression); it must be unique unless `occurrence` selects one."""
+        ifs = [n for n in ast.walk(fdef) if isinstance(n, ast.If)
+               and (reads in {t.id for t in ast.walk(n.test) if isinstance(t, ast.Name)} or reads in ast.unparse(n.test))]
+        ifs.sort(key=lambda n: (n.lineno, n.col_offset))
+        if occurrence is not None:
+            ifs = ifs[occurrence:occurrence + 1] if -len(ifs) <= occurrence < len(ifs) else []
+        if len(ifs) != 1:
+            raise self.bad(fdef, f'{len(ifs)} if-statements test {reads}')
+        node = ifs[0]
+        names = {t.id for t in ast.walk(node.test) if isinstance(t, ast.Name)}
+        self.setup(cls_name, False, set())
+        self.block_mode = True
+        self.qual = f'{self.qual_of(fdef, cls_name)} :: test of `if {ast.unparse(node.test)[:60]}`'
+        env, pyparams = self.declare(sorts, fields, cls_name, names, node, abstract, vec, self._self_attrs([node.test], abstract))
+        r, wrap = self.own(lambda: self.E(node.test, env))
+        if r.sort != B:
+            raise self.bad(node, 'test is not a bool')
+        ir = wrap(('ret', r, node))
+        span = (node.test.lineno, node.test.end_lineno)
+        return self.finish(ir, gen_name, pyparams, 'function', span, src_lines, fdef, what='the condition of the if statement at')
 
     def var_chain(self, fdef, var, src_lines, gen_name, cls_name, sorts, fields):
         """The value `var` holds after the last assignment to it in `fdef`, as a function of the
@@ -1112,7 +1545,9 @@ class Translator:
                f'   arguments: ' + ', '.join(f'{p}: {self.show(s)}' for p, s in pyparams) + '\n'
                f'   result: {self.show(rs)}' + (f'; may raise: {", ".join(sorted(acc["raises"]))}' if raising else '') +
                (f'\n   numpy divisions (total / in Coq; meaningful for non-zero divisor): {"; ".join(self.divisors)}'
-                if self.divisors else '') + ' *)\n')
+                if self.divisors else '') +
+               (f'\n   uninterpreted functions (extra arguments of type Q -> Q): {"; ".join(self.func_notes)}'
+                if self.func_notes else '') + ' *)\n')
         text = hdr + f'Definition {gen_name} {groups} : {rtxt} :=\n{body}.\n'
         fn = Fn(gen_name, list(self.params), rs, raising, text, list(self.divisors), span, sha)
         fn.pyparams, fn.kind, fn.raises = pyparams, kind, set(acc['raises'])
